@@ -107,7 +107,7 @@ RULE = (
     "and the terminal modes were observed switched on"
 )
 ASSUMES = [
-    "an exception group raised by a callback is judged by type, message, notes, shape and the identity of its leaf exceptions (Trio rebuilds group objects, so the group leaving run() may be an equal copy)",
+    "an exception group raised by a callback is judged by type, message, notes, shape and the identity of its leaf exceptions (the group leaving run() is an equal COPY on every loop: contextlib.suppress(ExitMainLoop) in MainLoop.run re-raises BaseExceptionGroup.split()[1], and Trio rebuilds groups too; counted as EXIT_group_equal_copy)",
     "a group whose only leaves are ExitMainLoop ends run() normally on every loop: MainLoop.run and the select/zmq loops use contextlib.suppress(ExitMainLoop), which since Python 3.12 removes matching members from exception groups (stdlib semantics, measured on all six loops and the no-hook path); it is counted, and judged only in that run() must end at that point and the terminal be restored",
     "each session runs in its own process forked from a template interpreter that has only imported urwid and the loop libraries (no loop, reactor, screen or signal handler was ever created in it); 12 sessions per run are repeated in brand-new interpreters (subprocess.run) and must agree (fresh_vs_forked_agree), VERIF_C12_FRESH=1 and --replay use brand-new interpreters throughout",
     "callbacks that run between an injected fault and the end of run() are counted, not judged (asyncio/tornado/twisted/trio stop at the end of the current loop iteration); a fault that does not end run() before the session's own scripted exit is a violation",
